@@ -30,7 +30,7 @@ REGISTRY = {
     "C16": dict(
         packs=["par1", "par2", "par3", "par4"], level="proof", lemmas=["c16_abandon"],
         replay=dict(script="replay/par.py", args=["C16", "{seed}", "small"], timeout=1500),
-        bounded=[dict(name="parallel-configurations", script="replay/par.py", args=["C16", "{seed}", "small"], timeout=1500,
+        bounded=[dict(name="audit-scenarios", script="replay/found.py", args=["C16", "{tier}"], timeout=1500, bound="scenarios contributed by audit sub-agents (replay/found/MANIFEST.json): repaired defects must stay repaired, recorded findings are probed"), dict(name="parallel-configurations", script="replay/par.py", args=["C16", "{seed}", "small"], timeout=1500,
                       bound="real joblib.Parallel on threading/sequential (and a sample of loky) over n_jobs x batch_size x pre_dispatch x return_as grids, failing tasks/inputs, "
                             "timeouts, instrumented input iterators, generator abandon/overlap scenarios")],
         trusted=["backend contract (public extension API): every submitted batch runs at most once, its callback is invoked at most once with the results in item order or an error",
@@ -42,19 +42,19 @@ REGISTRY = {
     "C09": dict(
         packs=["par1", "par2", "par3", "par4"], level="proof",
         replay=dict(script="replay/par.py", args=["C09", "{seed}", "small"], timeout=1500),
-        bounded=[dict(name="parallel-configurations", script="replay/par.py", args=["C09", "{seed}", "small"], timeout=1500,
+        bounded=[dict(name="audit-scenarios", script="replay/found.py", args=["C09", "{tier}"], timeout=1500, bound="scenarios contributed by audit sub-agents (replay/found/MANIFEST.json): repaired defects must stay repaired, recorded findings are probed"), dict(name="parallel-configurations", script="replay/par.py", args=["C09", "{seed}", "small"], timeout=1500,
                       bound="real joblib.Parallel on threading/sequential (and a sample of loky) over n_jobs x batch_size x pre_dispatch x return_as grids, failing tasks/inputs, "
                             "timeouts, instrumented input iterators, generator abandon/overlap scenarios")],
         trusted=["backend contract (public extension API): every submitted batch runs at most once, its callback is invoked at most once with the results in item order or an error",
                  "monitor rule: state written only under Parallel._lock with the lock invariant re-established before each release satisfies it in every interleaving (meta-theorem)",
                  "queue.Queue FIFO, collections.deque, itertools.islice semantics", "function summaries used between the four parts of the pack mirror contracts proved in another part (link by inspection)"],
         assumptions=["ordered mode for the in-order claims", "batch_size='auto' (variant dispatch_one_batch[auto-batch-size]): the look-ahead bound is stated with the largest batch size any thread has computed so far (ghost BSMAX, compute_batch_size >= 1 from its part-1 contract)", "BatchedCalls.__call__ / _get_sequential_output are shape-bounded (3 items)"],
-        undecided_clauses=["once a task has failed no further items are taken: the abort flag is read outside the lock in dispatch_one_batch, so one more slice may be pulled by a callback that already passed the test - neither provable at lock granularity nor refutable without a scheduler (undecided clause, not a finding)"],
+        undecided_clauses=[],
     ),
     "C04": dict(
         packs=["par1", "par2", "par3", "par4"], level="proof", lemmas=["c04_error_delivery"],
         replay=dict(script="replay/par.py", args=["C04", "{seed}", "small"], timeout=1500),
-        bounded=[dict(name="parallel-configurations", script="replay/par.py", args=["C04", "{seed}", "small"], timeout=1500,
+        bounded=[dict(name="audit-scenarios", script="replay/found.py", args=["C04", "{tier}"], timeout=1500, bound="scenarios contributed by audit sub-agents (replay/found/MANIFEST.json): repaired defects must stay repaired, recorded findings are probed"), dict(name="parallel-configurations", script="replay/par.py", args=["C04", "{seed}", "small"], timeout=1500,
                       bound="real joblib.Parallel on threading/sequential (and a sample of loky) over n_jobs x batch_size x pre_dispatch x return_as grids, failing tasks/inputs, "
                             "timeouts, instrumented input iterators, generator abandon/overlap scenarios")],
         trusted=["backend contract (public extension API): every submitted batch runs at most once, its callback is invoked at most once with the results in item order or an error",
@@ -66,7 +66,7 @@ REGISTRY = {
     "C01": dict(
         packs=["par1", "par2", "par3", "par4"], level="proof", lemmas=["c01_composition"],
         replay=dict(script="replay/par.py", args=["C01", "{seed}", "small"], timeout=1500),
-        bounded=[dict(name="parallel-configurations", script="replay/par.py", args=["C01", "{seed}", "small"], timeout=1500,
+        bounded=[dict(name="audit-scenarios", script="replay/found.py", args=["C01", "{tier}"], timeout=1500, bound="scenarios contributed by audit sub-agents (replay/found/MANIFEST.json): repaired defects must stay repaired, recorded findings are probed"), dict(name="parallel-configurations", script="replay/par.py", args=["C01", "{seed}", "small"], timeout=1500,
                       bound="real joblib.Parallel on threading/sequential (and a sample of loky) over n_jobs x batch_size x pre_dispatch x return_as grids, failing tasks/inputs, "
                             "timeouts, instrumented input iterators, generator abandon/overlap scenarios")],
         trusted=["backend contract (public extension API): every submitted batch runs at most once, its callback is invoked at most once with the results in item order or an error",
@@ -197,7 +197,7 @@ REGISTRY = {
         packs=["c17"],
         level="proof",
         replay=dict(script="replay/c17.py", args=[], timeout=600),
-        bounded=[dict(name="config-scoping-small-scope", script="replay/c17.py", args=[],
+        bounded=[dict(name="audit-scenarios", script="replay/found.py", args=["C17", "{tier}"], timeout=1500, bound="scenarios contributed by audit sub-agents (replay/found/MANIFEST.json): repaired defects must stay repaired, recorded findings are probed"), dict(name="config-scoping-small-scope", script="replay/c17.py", args=[],
                       bound="36 pairs of nested settings x {normal, exception} + failed constructor + one foreign thread; 66 context x explicit combinations")],
         trusted=["threading.local attributes are per-thread; the with statement calls __exit__ (CPython)"],
         assumptions=["BACKENDS holds the four built-in backends; register_parallel_backend / dask registration not modelled",
